@@ -22,14 +22,23 @@ UD = 86400000000
 GRANS = ["hour", "day", "week", "month", "quarter", "year"]
 GCOQ = {"hour": "Hour", "day": "Day", "week": "Week", "month": "Month", "quarter": "Quarter", "year": "Year"}
 MEAS = {"rev": ("sum", "v", None), "cnt": ("count", None, None), "cntv": ("count", "v", None), "mx": ("max", "v", None), "mn": ("min", "v", None),
-        "avg_v": ("avg", "v", None), "count_v": ("count", "v", None), "cd": ("count_distinct", "cat", None), "med": ("median", "v", None), "sd": ("stddev", "v", None),
-        "frev": ("sum", "v", ["{model}.cat = 'a'"]), "esum": ("sum", "v + w", None), "w_avg": ("avg", "w", None), "w_count": ("count", "w", None)}
+        "avg_v": ("avg", "v", None), "count_v": ("count", "v", None), "cd": ("count_distinct", "g1", None), "med": ("median", "v", None), "sd": ("stddev", "v", None),
+        "frev": ("sum", "v", ["{model}.g1 = 'a'"]), "esum": ("sum", "v + w", None), "w_avg": ("avg", "w", None), "w_count": ("count", "w", None)}
 # (filter text, columns it mentions, is it a condition on the raw timestamp)
-FILTERS = [("ev.cat = 'a'", ["cat"], False), ("ev.cat IN ('a', 'b')", ["cat"], False), ("ev.reg IS NULL", ["reg"], False), ("ev.v > 3", ["v"], False),
-           ("ev.ts >= '2024-02-10'", ["ts"], True), ("ev.ts < '2024-03-01'", ["ts"], True), ("ev.cat LIKE 'a%'", ["cat"], False), ("ev.reg <> 'x'", ["reg"], False),
-           ("ev.v BETWEEN 1 AND 5", ["v"], False), ("ev.cat = 'a' OR ev.reg = 'x'", ["cat", "reg"], False), ("'a' = ev.cat", ["cat"], False),
-           ("ev.reg IS NOT NULL AND ev.cat <> 'b'", ["reg", "cat"], False), ("ev.w = 1", ["w"], False)]
-FCOLS = {f: (cols, raw) for f, cols, raw in FILTERS}
+FILTERS = [("ev.g1 = 'a'", ["g1"], False), ("ev.g1 IN ('a', 'b')", ["g1"], False), ("ev.g2 IS NULL", ["g2"], False), ("ev.v > 3", ["v"], False),
+           ("ev.ts >= '2024-02-10'", ["ts"], True), ("ev.ts < '2024-03-01'", ["ts"], True), ("ev.g1 LIKE 'a%'", ["g1"], False), ("ev.g2 <> 'x'", ["g2"], False),
+           ("ev.v BETWEEN 1 AND 5", ["v"], False), ("ev.g1 = 'a' OR ev.g2 = 'x'", ["g1", "g2"], False), ("'a' = ev.g1", ["g1"], False),
+           ("ev.g2 IS NOT NULL AND ev.g1 <> 'b'", ["g2", "g1"], False), ("ev.w = 1", ["w"], False),
+           # the same syntactic forms on the sibling column (names that differ only in a digit: address1 / address2, geo_level1 / geo_level2)
+           ("ev.g2 = 'x'", ["g2"], False), ("ev.g2 IN ('x', 'y')", ["g2"], False), ("ev.g1 IS NULL", ["g1"], False), ("ev.g1 <> 'b'", ["g1"], False), ("ev.v = 1", ["v"], False)]
+class _FCols(dict):
+    def __missing__(self, f):
+        import re
+        cols = re.findall(r"ev\.(\w+)", f)
+        return (cols, "ts" in cols)
+
+
+FCOLS = _FCols({f: (cols, raw) for f, cols, raw in FILTERS})
 
 PREAMBLE = """From Coq Require Import ZArith String List Bool.
 Require Import V.Base.PyLib V.Base.Calendar V.Base.CalendarFacts V.Model.Refresh V.Model.Preagg V.Gen.Derivable_gen V.Gen.GranCompat_gen.
@@ -57,7 +66,7 @@ def gen_case(rng):
     preaggs = []
     for k in range(rng.choice([1, 1, 2, 3])):
         ms = rng.sample(sorted(MEAS), rng.randint(1, 6))
-        dims = rng.sample(["cat", "reg"], rng.randint(0, 2))
+        dims = rng.sample(["g1", "g2"], rng.randint(0, 2))
         td = rng.random() < 0.8
         preaggs.append(dict(name="r%d" % k, measures=ms, dimensions=dims, time_dimension="ts" if td else None, granularity=rng.choice(["hour", "day", "day", "week", "month"]) if td else None))
     for p in preaggs:
@@ -70,7 +79,7 @@ def gen_case(rng):
     pool = sorted(set(m for p in preaggs for m in p["measures"])) if rng.random() < 0.85 else sorted(MEAS)
     mets = rng.sample(pool, min(len(pool), rng.randint(1, 3)))
     dims = []
-    for d in rng.sample(["cat", "reg", "ts"], rng.randint(0, 3)):
+    for d in rng.sample(["g1", "g2", "ts"], rng.randint(0, 3)):
         dims.append(d if d != "ts" else ("ts__" + rng.choice(["day", "week", "month", "quarter", "year"]) if rng.random() < 0.85 else "ts"))
     filters = [f for f, _, _ in rng.sample(FILTERS, rng.choice([0, 0, 1, 1, 2]))]
     return dict(rows=rows, preaggs=preaggs, mets=mets, dims=dims, filters=filters)
@@ -81,7 +90,7 @@ def gen_friendly(rng):
     case = gen_case(rng)
     if all(r[4] is not None for r in case["rows"]) is False and rng.random() < 0.6:
         case["rows"] = [(r[0], r[1], r[2], r[3], 0 if r[4] is None else r[4], r[5]) for r in case["rows"]]
-    dims = rng.sample(["cat", "reg"], rng.randint(0, 2))
+    dims = rng.sample(["g1", "g2"], rng.randint(0, 2))
     pg = rng.choice(["hour", "day", "day", "week", "month"])
     ms = rng.sample(["rev", "cntv", "mx", "mn", "cnt", "esum", "avg_v", "count_v"], rng.randint(1, 5))
     case["preaggs"] = [dict(name="r0", measures=ms, dimensions=dims, time_dimension="ts", granularity=pg)] + case["preaggs"][1:]
@@ -99,6 +108,25 @@ def gen_friendly(rng):
     return case
 
 
+SIBLING_FORMS = [("ev.%s = '%s'", False), ("ev.%s IN ('%s', 'zz')", False), ("ev.%s <> '%s'", False), ("ev.%s LIKE '%s%%'", False), ("ev.%s IS NOT NULL", True)]
+
+
+def gen_sibling_pair(rng):
+    """targeted pair, run one after the other in this process: a query the rollup can answer whose filter names a rollup column, then the
+    same query with the same FORM of filter on the sibling column (g1 / g2: names that differ only in a digit) the rollup does not hold --
+    whatever the first query left behind, the second must not be answered from the rollup unless that is exact"""
+    base = gen_friendly(rng)
+    inside, outside = rng.choice([("g1", "g2"), ("g2", "g1")])
+    pg = rng.choice(["day", "day", "month"])
+    ms = rng.sample(["rev", "cntv", "mx", "mn", "cnt"], rng.randint(1, 3))
+    pre = [dict(name="r0", measures=ms, dimensions=[inside], time_dimension="ts", granularity=pg)]
+    form, nolit = rng.choice(SIBLING_FORMS)
+    lit = {"g1": rng.choice(["a", "b"]), "g2": rng.choice(["x", "y"])}
+    dims = rng.choice([[], ["ts__month"], [inside]])
+    mk = lambda col: dict(rows=base["rows"], preaggs=[dict(p) for p in pre], mets=list(ms[:2]), dims=list(dims), filters=[form % ((col,) if nolit else (col, lit[col]))])
+    return [mk(inside), mk(outside)]
+
+
 def gen_candidates(rng):
     """targeted family: SEVERAL rollups that are tried in turn, the earlier ones rejected for one reason (a missing measure, a granularity that is too
     coarse, a missing filter column) and a later one lacking something else the query needs (the time dimension, a dimension): what one candidate
@@ -110,7 +138,7 @@ def gen_candidates(rng):
         # measures that cannot be re-aggregated from per-bucket values (count_distinct, median, stddev) listed in a time rollup, asked for WITHOUT the
         # time dimension (or at a coarser granularity): the per-bucket values would have to be combined across buckets
         bad = rng.choice(["cd", "med", "sd"])
-        rdims = rng.sample(["cat", "reg"], rng.randint(0, 2))
+        rdims = rng.sample(["g1", "g2"], rng.randint(0, 2))
         case["preaggs"] = [dict(name="r0", measures=[bad, "rev", "cnt"], dimensions=rdims, time_dimension="ts", granularity=rng.choice(["day", "week"]))]
         case["mets"] = [bad] + rng.sample(["rev", "cnt"], rng.randint(0, 1))
         case["dims"] = list(rdims) + rng.choice([[], [], ["ts__month"], ["ts__year"]])
@@ -119,21 +147,21 @@ def gen_candidates(rng):
             case["rows"] = gen_case(rng)["rows"] or case["rows"]
         return case
     if kind == "time_then_notime":
-        pre = [dict(name="r0", measures=["mn"], dimensions=["cat"], time_dimension="ts", granularity="day"),
-               dict(name="r1", measures=ms, dimensions=["cat"], time_dimension=None, granularity=None)]
-        dims = ["ts__" + rng.choice(["day", "month"])] + rng.sample(["cat"], rng.randint(0, 1))
+        pre = [dict(name="r0", measures=["mn"], dimensions=["g1"], time_dimension="ts", granularity="day"),
+               dict(name="r1", measures=ms, dimensions=["g1"], time_dimension=None, granularity=None)]
+        dims = ["ts__" + rng.choice(["day", "month"])] + rng.sample(["g1"], rng.randint(0, 1))
     elif kind == "coarse_then_notime":
-        pre = [dict(name="r0", measures=ms, dimensions=["cat", "reg"], time_dimension="ts", granularity="month"),
-               dict(name="r1", measures=ms, dimensions=["cat", "reg"], time_dimension=None, granularity=None)]
-        dims = ["ts__day"] + rng.sample(["cat", "reg"], rng.randint(0, 2))
+        pre = [dict(name="r0", measures=ms, dimensions=["g1", "g2"], time_dimension="ts", granularity="month"),
+               dict(name="r1", measures=ms, dimensions=["g1", "g2"], time_dimension=None, granularity=None)]
+        dims = ["ts__day"] + rng.sample(["g1", "g2"], rng.randint(0, 2))
     elif kind == "dims_then_nodims":
-        pre = [dict(name="r0", measures=["mn"], dimensions=["cat", "reg"], time_dimension="ts", granularity="day"),
+        pre = [dict(name="r0", measures=["mn"], dimensions=["g1", "g2"], time_dimension="ts", granularity="day"),
                dict(name="r1", measures=ms, dimensions=[], time_dimension="ts", granularity="day")]
-        dims = ["ts__day", rng.choice(["cat", "reg"])]
+        dims = ["ts__day", rng.choice(["g1", "g2"])]
     else:
-        pre = [dict(name="r0", measures=ms, dimensions=["cat"], time_dimension=None, granularity=None),
-               dict(name="r1", measures=ms, dimensions=["cat"], time_dimension="ts", granularity="day")]
-        dims = ["ts__" + rng.choice(["day", "week", "month"]), "cat"]
+        pre = [dict(name="r0", measures=ms, dimensions=["g1"], time_dimension=None, granularity=None),
+               dict(name="r1", measures=ms, dimensions=["g1"], time_dimension="ts", granularity="day")]
+        dims = ["ts__" + rng.choice(["day", "week", "month"]), "g1"]
     case["preaggs"] = pre
     case["mets"] = rng.sample(ms, rng.randint(1, 3))
     case["dims"] = dims
@@ -144,12 +172,12 @@ def gen_candidates(rng):
 def build(case):
     from sidemantic import Dimension, Metric, Model, PreAggregation
     L = dbutil.fresh_layer()
-    L.conn.execute("create table ev(id bigint, ts timestamp, cat varchar, reg varchar, v bigint, w bigint)")
+    L.conn.execute("create table ev(id bigint, ts timestamp, g1 varchar, g2 varchar, v bigint, w bigint)")
     if case["rows"]:
         L.conn.executemany("insert into ev values (?,?,?,?,?,?)", [tuple(r) for r in case["rows"]])
     pas = [PreAggregation(**p) for p in case["preaggs"]]
     m = Model(name="ev", table="ev", primary_key="id",
-              dimensions=[Dimension(name="ts", type="time", sql="ts", granularity="hour"), Dimension(name="cat", type="categorical"), Dimension(name="reg", type="categorical")],
+              dimensions=[Dimension(name="ts", type="time", sql="ts", granularity="hour"), Dimension(name="g1", type="categorical"), Dimension(name="g2", type="categorical")],
               metrics=[Metric(name=n, agg=a, sql=e, filters=f) for n, (a, e, f) in MEAS.items()], pre_aggregations=pas)
     L.add_model(m)
     mat_err = {}
@@ -250,7 +278,7 @@ def model_term(case, res):
     codes = {}
 
     def code(r):
-        k = tuple(r[{"cat": 2, "reg": 3}[d]] for d in pa["dimensions"])
+        k = tuple(r[{"g1": 2, "g2": 3}[d]] for d in pa["dimensions"])
         return codes.setdefault(k, len(codes))
     brows = "; ".join("B (%d) %d (%d)" % (dbutil.canon_val(r[1])[1], code(r), r[4]) for r in case["rows"])
     # result groups in the order of the implementation's rows: (bucket, code or -1)
@@ -292,7 +320,7 @@ def check_translators(c):
     for n in names:
         for pool in pools:
             for a in aggs:
-                for filt in ([], ["{model}.cat = 'a'"]):
+                for filt in ([], ["{model}.g1 = 'a'"]):
                     if rng.random() < 0.35:
                         cases.append((n, a, filt, pool + ([n] if rng.random() < 0.8 else [])))
     opt = lambda s: "None" if s is None else '(Some "%s")' % s
@@ -361,6 +389,7 @@ def run(c):
             c.obligation("translator validation", False, "translator", repr(e)[-900:])
     n = 260 if c.tier == "quick" else 4000
     cases = corpus_cases() + [(gen_friendly(c.rng) if k % 2 else gen_case(c.rng)) for k in range(n)] + [gen_candidates(c.rng) for _ in range(max(12, n // 10))]
+    cases = [x for _ in range(max(8, n // 30)) for x in gen_sibling_pair(c.rng)] + cases
     results, terms, tindex = [], [], []
     stats = {"routed": 0, "not_routed": 0, "routed_equal": 0, "model_compared": 0, "exact_routes": 0, "inexact_routes": 0, "materialisation_errors": 0}
     for i, case in enumerate(cases):
@@ -500,16 +529,16 @@ def search_data(case, tries=40):
 def corpus_cases():
     T = lambda d, h=0: datetime.datetime(2024, 1, 1) + datetime.timedelta(days=d, hours=h)
     rows = [(1, T(0), "a", "x", 1, 1), (2, T(0, 5), "a", "x", 2, 1), (3, T(0, 7), "b", "y", 9, 0), (4, T(1), "a", None, 4, 3), (5, T(40), "b", "x", 5, 1), (6, T(41), None, "y", None, 0)]
-    day = lambda ms, dims=("cat",): [dict(name="r0", measures=list(ms), dimensions=list(dims), time_dimension="ts", granularity="day")]
+    day = lambda ms, dims=("g1",): [dict(name="r0", measures=list(ms), dimensions=list(dims), time_dimension="ts", granularity="day")]
     return [
         dict(rows=rows, preaggs=day(["med"]), mets=["med"], dims=["ts__month"], filters=[]),                      # K1 median re-aggregated with SUM
-        dict(rows=rows, preaggs=day(["frev"]), mets=["frev"], dims=["cat"], filters=[]),                          # K2 filtered measure
+        dict(rows=rows, preaggs=day(["frev"]), mets=["frev"], dims=["g1"], filters=[]),                          # K2 filtered measure
         dict(rows=rows, preaggs=day(["avg_v", "count_v"]), mets=["avg_v"], dims=["ts__month"], filters=[]),       # K3 avg stored as AVG, summed
         dict(rows=rows, preaggs=day(["rev"]), mets=["rev"], dims=["ts"], filters=[]),                             # K4 bare time dimension
-        dict(rows=rows, preaggs=day(["rev"], ()), mets=["rev"], dims=[], filters=["ev.cat IN ('a', 'b')"]),       # K5 filter column the regex does not see
+        dict(rows=rows, preaggs=day(["rev"], ()), mets=["rev"], dims=[], filters=["ev.g1 IN ('a', 'b')"]),       # K5 filter column the regex does not see
         dict(rows=rows, preaggs=[dict(name="r0", measures=["rev"], dimensions=[], time_dimension="ts", granularity="month")], mets=["rev"], dims=[], filters=["ev.ts >= '2024-02-10'"]),   # K6
         dict(rows=[], preaggs=day(["cnt"]), mets=["cnt"], dims=[], filters=[]),                                   # K8 count over an empty rollup
-        dict(rows=rows, preaggs=day(["rev", "cntv", "mn", "mx"]), mets=["rev", "cntv", "mn", "mx"], dims=["ts__month", "cat"], filters=[]),   # the sound case
+        dict(rows=rows, preaggs=day(["rev", "cntv", "mn", "mx"]), mets=["rev", "cntv", "mn", "mx"], dims=["ts__month", "g1"], filters=[]),   # the sound case
     ]
 
 
